@@ -55,6 +55,10 @@ struct Target {
     mutmethod: HashMap<String, String>,           // "name/arity" -> new value of the receiver variable
     extra_params: Vec<(String, String)>,          // Coq-only parameters (coq name, type)
     has_self: bool,
+    pmutmethod: HashMap<String, String>,          // fallible mutating method: res of the receiver's new value
+    smap: Vec<(String, String, String)>,          // statement text -> (variable, new value)
+    letmap: HashMap<String, (String, bool)>,      // let <var> = ...  overridden: (coq term, is res)
+    wrap64: bool,
 }
 
 struct Tr<'a> {
@@ -202,9 +206,14 @@ impl<'a> Tr<'a> {
                     BinOp::Le(_) => format!("({} <=? {})", l, r),
                     BinOp::Gt(_) => format!("({} <? {})", r, l),
                     BinOp::Ge(_) => format!("({} <=? {})", r, l),
+                    BinOp::Add(_) if self.t.wrap64 => format!("(({} + {}) mod two64)", l, r),
+                    BinOp::Mul(_) if self.t.wrap64 => format!("(({} * {}) mod two64)", l, r),
                     BinOp::Add(_) => format!("({} + {})", l, r),
                     BinOp::Mul(_) => format!("({} * {})", l, r),
                     BinOp::Div(_) => format!("({} / {})", l, r),
+                    BinOp::Rem(_) => format!("({} mod {})", l, r),
+                    BinOp::BitAnd(_) => format!("(N.land {} {})", l, r),
+                    BinOp::Shr(_) => format!("(N.shiftr {} {})", l, r),
                     BinOp::Sub(_) => {
                         // usize / u64 subtraction panics on underflow (debug) — a checked operation
                         let n = self.fresh("d");
@@ -214,7 +223,7 @@ impl<'a> Tr<'a> {
                     _ => return Err(format!("binary operator in {}", text)),
                 };
                 let k = match b.op {
-                    BinOp::Add(_) | BinOp::Mul(_) | BinOp::Div(_) => Kind::Num,
+                    BinOp::Add(_) | BinOp::Mul(_) | BinOp::Div(_) | BinOp::Rem(_) | BinOp::BitAnd(_) | BinOp::Shr(_) => Kind::Num,
                     _ => Kind::Other,
                 };
                 Ok((s, k))
@@ -597,6 +606,38 @@ impl<'a> Tr<'a> {
                     Err(format!("macro {}!", p))
                 }
             }
+            Stmt::Local(l) if matches!(&l.pat, Pat::Ident(i) if self.t.letmap.contains_key(&i.ident.to_string())) => {
+                let name = match &l.pat { Pat::Ident(i) => i.ident.to_string(), _ => unreachable!() };
+                let (term, is_res) = self.t.letmap.get(&name).cloned().unwrap();
+                let term = self.subst_vars(&term);
+                let kind = self.t.kinds.get(&name).cloned().unwrap_or(Kind::Other);
+                let c = self.bind(&name, kind);
+                let restc = self.seq(rest, k)?;
+                if is_res {
+                    Ok(format!("obind ({}) (fun {} =>\n{})", term, c, restc))
+                } else {
+                    Ok(format!("let {} := {} in\n{}", c, term, restc))
+                }
+            }
+            Stmt::Local(l) if l.init.as_ref().map(|i| matches!(&*i.expr, Expr::Match(m) if m.arms.iter().any(|a| self.arm_needs_block(&a.body)))).unwrap_or(false) => {
+                // let x = match e { P => fallible-or-block, ... };
+                let init = l.init.as_ref().unwrap();
+                let name = match &l.pat {
+                    Pat::Ident(i) => i.ident.to_string(),
+                    _ => return Err(format!("let pattern {}", toks(&l.pat))),
+                };
+                let saved = self.env.clone();
+                let inner = match &*init.expr {
+                    Expr::Match(m) => self.match_stmt(m, &[], &K::Val),
+                    _ => unreachable!(),
+                };
+                self.env = saved;
+                let inner = inner?;
+                let kind = self.t.kinds.get(&name).cloned().unwrap_or(Kind::Other);
+                let c = self.bind(&name, kind);
+                let restc = self.seq(rest, k)?;
+                Ok(format!("obind ({}) (fun {} =>\n{})", inner, c, restc))
+            }
             Stmt::Local(l) if l.init.as_ref().map(|i| matches!(&*i.expr, Expr::If(_) | Expr::Block(_))).unwrap_or(false)
                 && !matches!(&*l.init.as_ref().unwrap().expr, Expr::If(i) if matches!(&*i.cond, Expr::Let(_)) && false) =>
             {
@@ -640,7 +681,45 @@ impl<'a> Tr<'a> {
         }
     }
 
+    // an arm whose value needs the monad (a fallible call) or is a block
+    fn arm_needs_block(&self, body: &Expr) -> bool {
+        match body {
+            Expr::Block(_) => true,
+            other => self.is_fallible(other),
+        }
+    }
+
     fn stmt_expr(&mut self, e: &Expr, rest: &[Stmt], k: &K) -> R<String> {
+        let text = toks(e);
+        for (key, var, term) in self.t.smap.clone() {
+            if key == text {
+                let term = self.subst_vars(&term);
+                let c = self.rebind(&var)?;
+                let restc = self.seq(rest, k)?;
+                return Ok(format!("let {} := {} in\n{}", c, term, restc));
+            }
+        }
+        // x.m(args).unwrap();  with m a fallible mutating method of the table
+        if let Expr::MethodCall(u) = e {
+            if (u.method == "unwrap" || u.method == "expect") && u.args.len() <= 1 {
+                if let Expr::MethodCall(m) = &*u.receiver {
+                    let key = format!("{}/{}", m.method, m.args.len());
+                    if let Some(tmpl) = self.t.pmutmethod.get(&key).cloned() {
+                        let recv = toks(&m.receiver);
+                        let mut binds = Vec::new();
+                        let (r0, _) = self.expr(&m.receiver, &mut binds)?;
+                        let mut args = vec![r0];
+                        for a in &m.args {
+                            args.push(self.expr(a, &mut binds)?.0);
+                        }
+                        let v = Self::subst(&tmpl, &args);
+                        let c = self.rebind(&recv)?;
+                        let restc = self.seq(rest, k)?;
+                        return Ok(Self::wrap_binds(binds, format!("obind (unwrap_p {} ({})) (fun {} =>\n{})", self.t.panic_site, v, c, restc)));
+                    }
+                }
+            }
+        }
         match e {
             Expr::Macro(m) => {
                 let p = toks(&m.mac.path);
@@ -657,6 +736,74 @@ impl<'a> Tr<'a> {
                 let c = self.rebind(&name)?;
                 let restc = self.seq(rest, k)?;
                 Ok(Self::wrap_binds(binds, format!("let {} := {} in\n{}", c, v, restc)))
+            }
+            Expr::Binary(b) if is_assign_op(&b.op) => {
+                let name = toks(&b.left);
+                let mut binds = Vec::new();
+                let (cur, _) = self.expr(&b.left, &mut binds)?;
+                let (v, _) = self.expr(&b.right, &mut binds)?;
+                let val = match b.op {
+                    BinOp::AddAssign(_) => format!("({} + {})", cur, v),
+                    BinOp::MulAssign(_) => format!("({} * {})", cur, v),
+                    BinOp::DivAssign(_) => format!("({} / {})", cur, v),
+                    BinOp::ShrAssign(_) => format!("(N.shiftr {} {})", cur, v),
+                    BinOp::BitAndAssign(_) => format!("(N.land {} {})", cur, v),
+                    BinOp::SubAssign(_) => {
+                        let n = self.fresh("d");
+                        binds.push((n.clone(), format!("sub_chk {} {} {}", self.t.panic_site, cur, v)));
+                        n
+                    }
+                    _ => return Err(format!("compound assignment {}", toks(e))),
+                };
+                let c = self.rebind(&name)?;
+                let restc = self.seq(rest, k)?;
+                Ok(Self::wrap_binds(binds, format!("let {} := {} in\n{}", c, val, restc)))
+            }
+            Expr::ForLoop(f) if self.loop_depth == 0 && !scan_block_with(&f.body, self.t.mutmethod.keys().cloned().collect()).value_return => {
+                // a loop that only updates outer variables: a fold over the iterated list
+                let var = match &*f.pat {
+                    Pat::Ident(i) => i.ident.to_string(),
+                    _ => return Err(format!("for pattern {}", toks(&f.pat))),
+                };
+                let sc = scan_block_with(&f.body, self.t.mutmethod.keys().cloned().collect());
+                let vars: Vec<String> = sc.assigned.into_iter().filter(|v| self.lookup(v).is_some()).collect();
+                let mut binds = Vec::new();
+                let (it, _) = self.expr(&f.expr, &mut binds)?;
+                let mut init = Vec::new();
+                for v in &vars {
+                    init.push(self.lookup(v).unwrap().0);
+                }
+                let saved = self.env.clone();
+                // inside the body the state variables are the lambda's parameters
+                let mut params = Vec::new();
+                for v in &vars {
+                    params.push(self.rebind(v)?);
+                }
+                self.env.push(HashMap::new());
+                let kind = self.t.kinds.get(&var).cloned().unwrap_or(Kind::Other);
+                let xv = self.bind(&var, kind);
+                let body = self.seq(&f.body.stmts, &K::Join(vars.clone()));
+                self.env = saved;
+                let body = body?;
+                let tuple = |v: &Vec<String>| match v.len() {
+                    0 => "tt".to_string(),
+                    1 => v[0].clone(),
+                    _ => format!("({})", v.join(", ")),
+                };
+                let pat = |v: &Vec<String>| match v.len() {
+                    0 => "_".to_string(),
+                    1 => v[0].clone(),
+                    _ => format!("'({})", v.join(", ")),
+                };
+                let mut outs = Vec::new();
+                for v in &vars {
+                    outs.push(self.rebind(v)?);
+                }
+                let restc = self.seq(rest, k)?;
+                Ok(Self::wrap_binds(
+                    binds,
+                    format!("obind (fold_res (fun {} {} =>\n{}) {} {}) (fun {} =>\n{})", pat(&params), xv, body, it, tuple(&init), pat(&outs), restc),
+                ))
             }
             Expr::If(_) | Expr::Match(_) if self.joinable(e, rest, k) => self.join_stmt(e, rest, k),
             Expr::If(i) => self.if_stmt(i, rest, k),
@@ -760,13 +907,17 @@ impl<'a> Tr<'a> {
 
     // an `if` / `match` STATEMENT that is followed by more code and never returns a value early is
     // translated once and rejoined (the continuation is not duplicated into its branches)
+    fn scan(&self, e: &Expr) -> Scan {
+        scan_expr_with(e, self.t.mutmethod.keys().chain(self.t.pmutmethod.keys()).cloned().collect())
+    }
+
     fn joinable(&self, e: &Expr, rest: &[Stmt], k: &K) -> bool {
         let follows = !rest.is_empty() || !matches!(k, K::End);
-        follows && self.loop_depth == 0 && !scan_expr(e).value_return
+        follows && self.loop_depth == 0 && !self.scan(e).value_return
     }
 
     fn join_stmt(&mut self, e: &Expr, rest: &[Stmt], k: &K) -> R<String> {
-        let sc = scan_expr(e);
+        let sc = self.scan(e);
         // only variables that exist before the statement are carried out of it
         let vars: Vec<String> = sc.assigned.into_iter().filter(|v| self.lookup(v).is_some()).collect();
         let saved = self.env.clone();
@@ -916,6 +1067,7 @@ impl<'a> Tr<'a> {
 struct Scan {
     value_return: bool,
     assigned: Vec<String>,
+    mutmethods: Vec<String>,
 }
 impl<'ast> syn::visit::Visit<'ast> for Scan {
     fn visit_expr_return(&mut self, r: &'ast syn::ExprReturn) {
@@ -939,11 +1091,41 @@ impl<'ast> syn::visit::Visit<'ast> for Scan {
         syn::visit::visit_expr_assign(self, a);
     }
     fn visit_expr_closure(&mut self, _c: &'ast syn::ExprClosure) {}
+    fn visit_expr_binary(&mut self, b: &'ast syn::ExprBinary) {
+        if is_assign_op(&b.op) {
+            let n = toks(&b.left);
+            if !self.assigned.contains(&n) {
+                self.assigned.push(n);
+            }
+        }
+        syn::visit::visit_expr_binary(self, b);
+    }
+    fn visit_expr_method_call(&mut self, m: &'ast syn::ExprMethodCall) {
+        let key = format!("{}/{}", m.method, m.args.len());
+        if self.mutmethods.contains(&key) {
+            let n = toks(&m.receiver);
+            if !self.assigned.contains(&n) {
+                self.assigned.push(n);
+            }
+        }
+        syn::visit::visit_expr_method_call(self, m);
+    }
 }
 
-fn scan_expr(e: &Expr) -> Scan {
-    let mut sc = Scan { value_return: false, assigned: Vec::new() };
+fn is_assign_op(op: &BinOp) -> bool {
+    matches!(op, BinOp::AddAssign(_) | BinOp::SubAssign(_) | BinOp::MulAssign(_) | BinOp::DivAssign(_)
+        | BinOp::ShrAssign(_) | BinOp::ShlAssign(_) | BinOp::BitAndAssign(_) | BinOp::BitOrAssign(_))
+}
+
+fn scan_expr_with(e: &Expr, mutmethods: Vec<String>) -> Scan {
+    let mut sc = Scan { value_return: false, assigned: Vec::new(), mutmethods };
     syn::visit::Visit::visit_expr(&mut sc, e);
+    sc
+}
+
+fn scan_block_with(b: &Block, mutmethods: Vec<String>) -> Scan {
+    let mut sc = Scan { value_return: false, assigned: Vec::new(), mutmethods };
+    syn::visit::Visit::visit_block(&mut sc, b);
     sc
 }
 
@@ -1018,6 +1200,21 @@ fn parse_targets(text: &str) -> (String, Vec<Target>) {
                 let (a, b) = arrow(rest);
                 t.mutmethod.insert(norm(&a), b);
             }
+            "pmutmethod" => {
+                let (a, b) = arrow(rest);
+                t.pmutmethod.insert(norm(&a), b);
+            }
+            "smap" => {
+                // smap <rust statement> => <var> := <coq term>
+                let (a, b) = arrow(rest);
+                let (v, term) = b.split_once(":=").expect("smap needs var := term");
+                t.smap.push((norm(&a), v.trim().to_string(), term.trim().to_string()));
+            }
+            "letmap" | "pletmap" => {
+                let (a, b) = arrow(rest);
+                t.letmap.insert(a, (b, key == "pletmap"));
+            }
+            "arith" => t.wrap64 = rest == "wrap64",
             "skip" => t.skip_macros = rest.split_whitespace().map(|s| s.to_string()).collect(),
             "param" => {
                 // param <rust> <coq> <kind> : <coq type>
@@ -1155,7 +1352,10 @@ fn main() {
             .inputs
             .iter()
             .filter_map(|a| match a {
-                syn::FnArg::Typed(p) => Some(toks(&p.pat)),
+                syn::FnArg::Typed(p) => Some(match &*p.pat {
+                    Pat::Ident(i) => i.ident.to_string(), // `mut x` is the parameter x
+                    other => toks(other),
+                }),
                 syn::FnArg::Receiver(_) => None,
             })
             .collect();
